@@ -154,8 +154,13 @@ def Schema.listRules : Schema → ListRules
   | .oneof _ _ lr | .timestamp _ lr | .date _ lr | .decimal _ lr | .any _ _ lr => lr
   | .bytes _ | .object _ _ _ => none
 
-/-- The declarations `C04_field_roundtrip` quantifies over. For maps the open class is wider than
-for arrays: the values' list rules (written on the entry's value field) are lost too. -/
+/-- The declarations `C04_field_roundtrip_partial` quantifies over. Excluded (each with a counterexample
+theorem in `Props/C04.lean`, each confirmed on the real code): `StringField.format`; in arrays and
+maps the item annotations that the array annotation replaces / that sit on the map entry's value
+field — keys without uuid / id62 format or with an entity, strings with a well-known pattern,
+date / decimal rules, `flatten` objects, `any` with `onlyDefined` / `types`; for maps also the
+values' list rules; `?` on arrays and maps (accepted by the compiler, not carried by the
+descriptor); and the inadmissible declarations (compile errors). -/
 def WFField (p : Property) : Bool :=
   schemaWFField (p.schema.isArray || p.schema.isMap) p.schema.item &&
   !(p.schema.isMap && p.schema.item.listRules.isSome) &&
